@@ -317,7 +317,7 @@ func (ex *Exec) runDeferred(fr *Frame, d deferred, st *State, reach Term, recove
 		for i, n := range names {
 			vars[n] = d.args[i]
 		}
-		env := &SpecEnv{vars: vars, st: st, lst: st, pkg: fn.Pkg.Pkg, topOld: st.top}
+		env := &SpecEnv{vars: vars, st: st, lst: st, pkg: fnPkg(fn), topOld: st.top}
 		env.old = env
 		var conds []Term
 		for _, pc := range c.Panics {
@@ -868,7 +868,7 @@ func (ex *Exec) instr(fr *Frame, b *ssa.BasicBlock, in ssa.Instruction, st *Stat
 		fr.defers = append(fr.defers, d)
 	case *ssa.Send:
 		if ci := ex.chanInvOf(x.Chan); ci != nil {
-			env := &SpecEnv{vars: map[string]Val{ci.Var: ex.get(fr, x.X, st)}, st: st, lst: st, pkg: fr.fn.Pkg.Pkg, topOld: fr.entry.top}
+			env := &SpecEnv{vars: map[string]Val{ci.Var: ex.get(fr, x.X, st)}, st: st, lst: st, pkg: fnPkg(fr.fn), topOld: fr.entry.top}
 			env.old = env
 			o := ex.vc.oblige("chaninv", fr.name("chaninv:"+ci.Field), reach, ex.evalBool(ci.E, env), ex.where(x.Pos()))
 			o.Descr = "value sent on " + ci.Field + " satisfies the channel invariant: " + ci.Text
@@ -895,7 +895,7 @@ func (ex *Exec) instr(fr *Frame, b *ssa.BasicBlock, in ssa.Instruction, st *Stat
 			}
 			rv := ex.freshVal("recv", tup.At(ri).Type(), st)
 			if ci := ex.chanInvOf(sst.Chan); ci != nil {
-				env := &SpecEnv{vars: map[string]Val{ci.Var: rv}, st: st, lst: st, pkg: fr.fn.Pkg.Pkg, topOld: fr.entry.top}
+				env := &SpecEnv{vars: map[string]Val{ci.Var: rv}, st: st, lst: st, pkg: fnPkg(fr.fn), topOld: fr.entry.top}
 				env.old = env
 				ex.vc.assume(Implies(And(reach, Eq(idx, IntLit(int64(si)))), ex.evalBool(ci.E, env)))
 			}
@@ -1126,7 +1126,7 @@ func (ex *Exec) goStmt(fr *Frame, c *ssa.CallCommon, st *State, reach Term, pos 
 			vars[p.Name()] = ex.get(fr, c.Args[i], st)
 		}
 	}
-	env := &SpecEnv{vars: vars, st: st.clone(), lst: st, pkg: fn.Pkg.Pkg, topOld: st.top}
+	env := &SpecEnv{vars: vars, st: st.clone(), lst: st, pkg: fnPkg(fn), topOld: st.top}
 	env.old = env
 	names := map[string]bool{}
 	byHeap := map[string][]designator{}
@@ -1160,7 +1160,7 @@ func (ex *Exec) goStmt(fr *Frame, c *ssa.CallCommon, st *State, reach Term, pos 
 	st.top = nt
 	// postconditions labelled stable-* are invariants the goroutine maintains at every instant
 	// (each of its writes re-establishes them); they may be assumed while it runs
-	post := &SpecEnv{vars: vars, st: st, lst: st, pkg: fn.Pkg.Pkg, old: env, topOld: topPre}
+	post := &SpecEnv{vars: vars, st: st, lst: st, pkg: fnPkg(fn), old: env, topOld: topPre}
 	for _, e := range ct.Ensures {
 		if strings.HasPrefix(e.Label, "stable-") {
 			ex.vc.assume(Implies(reach, ex.evalBool(e.E, post)))
